@@ -73,6 +73,10 @@ def determinism(ids) -> int:
 
 # --------------------------------------------------------------------------------------
 def _apply_mutation(src_root: str, mut: dict) -> None:
+    if "edits" in mut:
+        for e in mut["edits"]:
+            _apply_mutation(src_root, dict(e, name=mut["name"]))
+        return
     path = os.path.join(src_root, mut["file"])
     with open(path) as f:
         s = f.read()
